@@ -1,11 +1,14 @@
 import Model.Transfer
 import Proofs.F32Ops
+import Proofs.Cbrt
 import Mathlib.Data.Nat.Cast.Order.Field
 /-! C18 (and the float->int part of C07 / C13): the fast math helpers are total. `exp2` is the only place where the
 crates convert a float to an integer without a check; the theorem below shows that, for EVERY 32-bit pattern (NaN,
 infinities, subnormals, huge values), the argument of `to_int_unchecked` is finite and within [-128, 129], so the
 conversion is defined. Constants are the ones regenerated from the source (`C.exp2_f0..f2`): changing a clamp bound
-re-runs these proofs. The accuracy clauses of C18 (1 ulp, 2.5e-4 + 8e-6|y|, 1e-5) are not proved (partial). -/
+re-runs these proofs. Accuracy: `cbrtf_accurate` (end of file) proves the cube-root clause for every normal argument of either sign in
+relative form (2^-24 + 1e-11, i.e. half an ulp of the unit in the last place plus the residual of two Halley steps); the powf/expf accuracy
+clauses (2.5e-4 + 8e-6|y|, 1e-5) and bit-exact oddness are not proved (partial). -/
 namespace C18
 open F32 MathM Real
 
@@ -245,4 +248,26 @@ theorem curve_total (t : TC) (x : Nat) :
       | exact t_srgbi B x | exact t_pqgam B x | exact t_hlggam B x | exact ⟨_, rfl⟩
 
 end curves
+end C18
+
+namespace C18
+open Real
+
+/-- **cbrtf accuracy** (fastmath build): for every normal binary32 argument of either sign and the real cube root `c` of its
+value, the result is finite and `|cbrtf x - c| ≤ (2^-24 + 1e-11) |c|`. Since one ulp of `c` is at least `2^-24 |c|` and at
+most `2^-23 |c|`, this is "within 1 ulp" except for `c` within relative 1.7e-4 below a power of two, where it gives 1.0002 ulp
+(the final rounding is in fact within half an ulp of the double-precision iterate, which is within 3.4e-12 of `c`).
+Kernel-checked: seed analysis over 192 cells (`decide +kernel`) + real analysis of two Halley steps in binary64. -/
+theorem cbrtf_accurate (B : Build) (hB : B.fastmath = true) (x : Nat) (hx : Cbrt.Normal x) (c : ℝ) (hc : c ^ 3 = F32.toReal x) :
+    F32.Finite (MathM.cbrtf B x) ∧ |F32.toReal (MathM.cbrtf B x) - c| ≤ ((2:ℝ) ^ (-24:ℤ) + 1 / 10 ^ 11) * |c| := by
+  have : MathM.cbrtf B x = MathM.cbrtfFast x := by unfold MathM.cbrtf; rw [if_pos hB]
+  rw [this]
+  exact Cbrt.cbrtf_close x hx c hc
+
+/-- non-vacuity: 8.0 is normal and 2 is its cube root -/
+example : Cbrt.Normal 0x41000000 ∧ (2:ℝ) ^ 3 = F32.toReal 0x41000000 := by
+  refine ⟨⟨0, 130, 0, by norm_num, by norm_num, by norm_num, by norm_num, by norm_num⟩, ?_⟩
+  rw [F32.toReal_of_decode _ false 8388608 (-20) (by rfl)]
+  unfold F32.valR; norm_num
+
 end C18
